@@ -574,6 +574,54 @@ func (ev *evaluator) eval(fr *evalFrame, v ssa.Value, depth int) (interface{}, b
 			}
 		}
 		return nil, false
+	case *ssa.Index:
+		// an element of an array value the walker holds
+		if av, ok := ev.eval(fr, x.X, depth+1); ok {
+			if arr, isArr := av.(absArray); isArr {
+				return ev.getPath(fr, arr, arr.t, []pathStep{{field: -1, index: x.Index}})
+			}
+		}
+		// an element of a local literal array read by value
+		if al, ok := localArrayValue(x.X); ok && al.Parent() != nil {
+			return ev.localElemOf(fr, al, x.Index, -1, depth)
+		}
+		// one byte of an evaluated string
+		if isStringType(x.X.Type()) {
+			sv, ok1 := ev.eval(fr, x.X, depth+1)
+			iv, ok2 := ev.eval(fr, x.Index, depth+1)
+			str, isS := sv.(string)
+			i, isI := iv.(int64)
+			if ok1 && ok2 && isS && isI {
+				if i < 0 || int(i) >= len(str) {
+					ev.panicked = true
+					return nil, false
+				}
+				return int64(str[i]), true
+			}
+		}
+		return nil, false
+	case *ssa.Field:
+		// a field of a struct value the walker holds
+		if sv, ok := ev.eval(fr, x.X, depth+1); ok {
+			if st, isSt := sv.(absStruct); isSt {
+				return ev.getPath(fr, st, st.t, []pathStep{{field: x.Field}})
+			}
+		}
+		// a field of an element of a local literal array of structs read by value
+		if ix, ok := x.X.(*ssa.Index); ok {
+			if al, ok := localArrayValue(ix.X); ok && al.Parent() != nil {
+				return ev.localElemOf(fr, al, ix.Index, x.Field, depth)
+			}
+		}
+		// a field of an element loaded through its address
+		if ld, ok := x.X.(*ssa.UnOp); ok && ld.Op == token.MUL {
+			if ia, ok := ld.X.(*ssa.IndexAddr); ok {
+				if v, ok := ev.localElem(fr, ia, x.Field, depth); ok {
+					return v, true
+				}
+			}
+		}
+		return nil, false
 	case *ssa.TypeAssert:
 		if !x.CommaOk {
 			return ev.eval(fr, x.X, depth+1)
@@ -663,6 +711,26 @@ func (ev *evaluator) eval(fr *evalFrame, v ssa.Value, depth int) (interface{}, b
 				base, isB := b.(int64)
 				if ok1 && ok2 && isK && isB && base >= 2 && base <= 36 {
 					return strconv.FormatInt(k, int(base)), true
+				}
+			}
+			return nil, false
+		case "strings.Join":
+			if len(x.Common().Args) == 2 {
+				sep, ok := ev.eval(fr, x.Common().Args[1], depth+1)
+				seps, isS := sep.(string)
+				al, isLit := localArrayOf(x.Common().Args[0])
+				if ok && isS && isLit && al.Parent() != nil {
+					n := al.Type().Underlying().(*types.Pointer).Elem().Underlying().(*types.Array).Len()
+					var parts []string
+					for i := int64(0); i < n; i++ {
+						v, ok := ev.localElemOf(fr, al, ssa.NewConst(constant.MakeInt64(i), types.Typ[types.Int]), -1, depth)
+						str, isStr := v.(string)
+						if !ok || !isStr {
+							return nil, false
+						}
+						parts = append(parts, str)
+					}
+					return strings.Join(parts, seps), true
 				}
 			}
 			return nil, false
@@ -765,7 +833,7 @@ func (ev *evaluator) run(fn *ssa.Function, parent *evalFrame, call *ssa.Call, st
 	if start == nil && stop == nil {
 		// a whole function with one loop whose carried values are scalars is read as a table over the
 		// iteration number (runCounted); anything else with a loop fails as before
-		if h, many := loopHeaderOf(fn); h != nil && !many && h != fn.Blocks[0] {
+		if h, _ := loopHeaderOf(fn); h != nil && h != fn.Blocks[0] {
 			budget := ev.counted
 			if budget <= 0 {
 				budget = 512
@@ -835,26 +903,39 @@ func (ev *evaluator) runFrame(fr *evalFrame, start *ssa.BasicBlock, stop func(b 
 						fr.mem[memKey{fr.resolve(fa.X), fa.Field}] = unknownValue{}
 					}
 				}
-				// a local variable that lives in memory (a named result with defer, a captured variable)
-				if al, isCell := x.Addr.(*ssa.Alloc); isCell && !isAggregate(al) {
-					if fr.mem == nil {
-						fr.mem = map[memKey]interface{}{}
-					}
-					if v, ok := ev.eval(fr, x.Val, 0); ok {
-						fr.mem[memKey{al, cellField}] = v
-					} else {
-						fr.mem[memKey{al, cellField}] = unknownValue{}
+				// a local variable that lives in memory, or a part of a local struct or array
+				if al, steps := localPath(x.Addr); al != nil && (len(steps) > 0 || true) {
+					if _, isField := x.Addr.(*ssa.FieldAddr); !isField || len(steps) > 0 {
+						if fr.mem == nil {
+							fr.mem = map[memKey]interface{}{}
+						}
+						key := memKey{al, cellField}
+						v, ok := ev.eval(fr, x.Val, 0)
+						if !ok {
+							v = unknownValue{}
+						}
+						if _, bad := fr.mem[key].(unknownValue); bad && len(steps) > 0 {
+							// a part of something unknown stays unknown
+						} else if nv, ok := ev.setPath(fr, fr.mem[key], al.Type().Underlying().(*types.Pointer).Elem(), steps, v); ok {
+							fr.mem[key] = nv
+						} else {
+							fr.mem[key] = unknownValue{}
+						}
 					}
 				}
 			}
-			// a cell is read where the load stands, not where its value is used
-			if ld, ok := ins.(*ssa.UnOp); ok && ld.Op == token.MUL {
-				if al, isCell := ld.X.(*ssa.Alloc); isCell && !isAggregate(al) && fr.mem != nil {
-					if v, ok := fr.mem[memKey{al, cellField}]; ok {
+			// a local is read where the load stands, not where its value is used
+			if ld, ok := ins.(*ssa.UnOp); ok && ld.Op == token.MUL && fr.mem != nil {
+				if al, steps := localPath(ld.X); al != nil {
+					if cur, ok := fr.mem[memKey{al, cellField}]; ok {
 						if fr.vals == nil {
 							fr.vals = map[ssa.Value]interface{}{}
 						}
-						fr.vals[ld] = v
+						if v, ok := ev.getPath(fr, cur, al.Type().Underlying().(*types.Pointer).Elem(), steps); ok {
+							fr.vals[ld] = v
+						} else if _, isField := ld.X.(*ssa.FieldAddr); !isField {
+							fr.vals[ld] = unknownValue{}
+						}
 					}
 				}
 			}
@@ -1219,128 +1300,159 @@ func loopHeaderOf(fn *ssa.Function) (header *ssa.BasicBlock, many bool) {
 
 func (ev *evaluator) runCountedFrame(fr0 *evalFrame, maxIter int) ([]interface{}, string) {
 	fn := fr0.fn
-	header, many := loopHeaderOf(fn)
-	if many {
-		ev.setFail("more than one loop in " + fname(fn))
-		return nil, "fail"
+	headers := map[*ssa.BasicBlock]bool{}
+	for _, b := range fn.Blocks {
+		for _, p := range b.Preds {
+			if b.Dominates(p) {
+				headers[b] = true
+			}
+		}
 	}
-	if header == nil {
+	if len(headers) == 0 {
 		return ev.runFrame(fr0, nil, nil)
 	}
-	if header == fn.Blocks[0] {
-		ev.setFail("the loop of " + fname(fn) + " starts at the entry")
+	if headers[fn.Blocks[0]] {
+		ev.setFail("a loop of " + fname(fn) + " starts at the entry")
 		return nil, "fail"
 	}
-	res, outcome := ev.runFrame(fr0, nil, func(b *ssa.BasicBlock) bool { return b == header })
-	if outcome != fmt.Sprintf("stop:%d", header.Index) {
-		return res, outcome
-	}
-	var phis []*ssa.Phi
-	for _, ins := range header.Instrs {
-		phi, ok := ins.(*ssa.Phi)
-		if !ok {
-			break
+	atHeader := func(outcome string) *ssa.BasicBlock {
+		var idx int
+		if _, err := fmt.Sscanf(outcome, "stop:%d", &idx); err == nil && idx >= 0 && idx < len(fn.Blocks) && headers[fn.Blocks[idx]] {
+			return fn.Blocks[idx]
 		}
-		phis = append(phis, phi)
+		return nil
 	}
 	scalar := func(v interface{}) bool {
 		switch v.(type) {
-		case int64, string, bool, absPtr, float64:
+		case int64, string, bool, absPtr, float64, absStruct, absArray:
 			return true
 		}
 		return false
 	}
-	state := map[*ssa.Phi]interface{}{}
-	for _, phi := range phis {
-		c0, ok := ev.eval(fr0, phi, 0) // resolves to the entry edge
-		if !ok || !scalar(c0) {
-			ev.setFail("the entry value of a loop-carried value of " + fname(fn) + " is not an evaluable scalar")
-			return nil, "fail"
-		}
-		state[phi] = c0
+	stopAtHeader := func(b *ssa.BasicBlock) bool { return headers[b] }
+	// the part before the first loop
+	res, outcome := ev.runFrame(fr0, nil, stopAtHeader)
+	cur := fr0
+	header := atHeader(outcome)
+	if header == nil {
+		return res, outcome
 	}
-	carried := fr0.mem
-	for n := 0; n < maxIter; n++ {
-		fr := &evalFrame{fn: fn, parent: fr0.parent, call: fr0.call, phiFrom: map[*ssa.BasicBlock]*ssa.BasicBlock{}, vals: map[ssa.Value]interface{}{}}
-		for k, p := range fr0.phiFrom {
-			if k != header {
-				fr.phiFrom[k] = p
-			}
-		}
-		for k, x := range fr0.vals {
-			fr.vals[k] = x
-		}
-		if carried != nil {
-			fr.mem = map[memKey]interface{}{}
-			for k, x := range carried {
-				fr.mem[k] = x
-			}
-		}
-		for phi, v := range state {
-			fr.vals[phi] = v
-		}
-		// a range over a string yields its n-th rune in iteration n
+	budget := maxIter
+	for {
+		// iterate the loop at header, entered with the frame cur (whose phiFrom[header] is the entry edge)
+		var phis []*ssa.Phi
 		for _, ins := range header.Instrs {
-			nx, ok := ins.(*ssa.Next)
-			if !ok || !nx.IsString {
-				continue
-			}
-			rg, ok := nx.Iter.(*ssa.Range)
+			phi, ok := ins.(*ssa.Phi)
 			if !ok {
-				continue
+				break
 			}
-			sv, ok := ev.eval(fr0, rg.X, 0)
-			str, isS := sv.(string)
-			if !ok || !isS {
-				ev.setFail("the string ranged over in " + fname(fn) + " is not evaluable")
-				return nil, "fail"
-			}
-			off, i := 0, 0
-			tuple := []interface{}{false, int64(0), int64(0)}
-			for pos, rn := range str {
-				if i == n {
-					tuple = []interface{}{true, int64(pos), int64(rn)}
-					off = 1
-					break
-				}
-				i++
-			}
-			_ = off
-			fr.vals[nx] = tuple
+			phis = append(phis, phi)
 		}
-		res, outcome := ev.runFrame(fr, header, func(b *ssa.BasicBlock) bool { return b == header })
-		if outcome != fmt.Sprintf("stop:%d", header.Index) {
-			return res, outcome
-		}
-		carried = fr.mem // local cells, builders and fields written so far
-		latch := fr.phiFrom[header]
-		delete(fr.phiFrom, header)
-		idx := -1
-		for i, p := range header.Preds {
-			if p == latch {
-				idx = i
-			}
-		}
-		if idx < 0 {
-			ev.setFail("the back edge of the loop of " + fname(fn) + " was not found")
-			return nil, "fail"
-		}
-		next := map[*ssa.Phi]interface{}{}
+		state := map[*ssa.Phi]interface{}{}
 		for _, phi := range phis {
-			v, ok := ev.eval(fr, phi.Edges[idx], 0)
-			if !ok && ev.panicked {
-				return nil, "panic"
-			}
-			if !ok || !scalar(v) {
-				ev.setFail("a loop-carried value of " + fname(fn) + " is not an evaluable scalar")
+			c0, ok := ev.eval(cur, phi, 0)
+			if !ok || !scalar(c0) {
+				ev.setFail("the entry value of a loop-carried value of " + fname(fn) + " is not an evaluable scalar")
 				return nil, "fail"
 			}
-			next[phi] = v
+			state[phi] = c0
 		}
-		state = next
+		body := loopBlocks(header)
+		carried := cur.mem
+		var next *ssa.BasicBlock
+		var nextFrame *evalFrame
+		for n := 0; ; n++ {
+			if budget--; budget < 0 {
+				ev.setFail("a loop of " + fname(fn) + " does not end within the iteration budget")
+				return nil, "fail"
+			}
+			fr := &evalFrame{fn: fn, parent: cur.parent, call: cur.call, phiFrom: map[*ssa.BasicBlock]*ssa.BasicBlock{}, vals: map[ssa.Value]interface{}{}}
+			for k, p := range cur.phiFrom {
+				if k != header {
+					fr.phiFrom[k] = p
+				}
+			}
+			for k, x := range cur.vals {
+				fr.vals[k] = x
+			}
+			if carried != nil {
+				fr.mem = map[memKey]interface{}{}
+				for k, x := range carried {
+					fr.mem[k] = x
+				}
+			}
+			for phi, v := range state {
+				fr.vals[phi] = v
+			}
+			// a range over a string yields its n-th rune in iteration n
+			for _, ins := range header.Instrs {
+				nx, ok := ins.(*ssa.Next)
+				if !ok || !nx.IsString {
+					continue
+				}
+				rg, ok := nx.Iter.(*ssa.Range)
+				if !ok {
+					continue
+				}
+				sv, ok := ev.eval(cur, rg.X, 0)
+				str, isS := sv.(string)
+				if !ok || !isS {
+					ev.setFail("the string ranged over in " + fname(fn) + " is not evaluable")
+					return nil, "fail"
+				}
+				i := 0
+				tuple := []interface{}{false, int64(0), int64(0)}
+				for pos, rn := range str {
+					if i == n {
+						tuple = []interface{}{true, int64(pos), int64(rn)}
+						break
+					}
+					i++
+				}
+				fr.vals[nx] = tuple
+			}
+			res, outcome := ev.runFrame(fr, header, stopAtHeader)
+			h2 := atHeader(outcome)
+			if h2 == nil {
+				return res, outcome
+			}
+			if h2 != header {
+				if body[h2] {
+					ev.setFail("nested loops in " + fname(fn))
+					return nil, "fail"
+				}
+				next, nextFrame = h2, fr // the loop was left and the walk reached the next loop
+				break
+			}
+			carried = fr.mem // local variables, builders and fields written so far
+			latch := fr.phiFrom[header]
+			delete(fr.phiFrom, header)
+			idx := -1
+			for i, p := range header.Preds {
+				if p == latch {
+					idx = i
+				}
+			}
+			if idx < 0 {
+				ev.setFail("the back edge of a loop of " + fname(fn) + " was not found")
+				return nil, "fail"
+			}
+			nextState := map[*ssa.Phi]interface{}{}
+			for _, phi := range phis {
+				v, ok := ev.eval(fr, phi.Edges[idx], 0)
+				if !ok && ev.panicked {
+					return nil, "panic"
+				}
+				if !ok || !scalar(v) {
+					ev.setFail("a loop-carried value of " + fname(fn) + " is not an evaluable scalar")
+					return nil, "fail"
+				}
+				nextState[phi] = v
+			}
+			state = nextState
+		}
+		cur, header = nextFrame, next
 	}
-	ev.setFail("the loop of " + fname(fn) + " does not end within the iteration budget")
-	return nil, "fail"
 }
 
 // runCallee reads an inlined library callee: loop-free ones by the walker, and (when ev.counted is set)
@@ -1366,6 +1478,12 @@ func localArrayOf(v ssa.Value) (*ssa.Alloc, bool) {
 }
 
 func localLiteralLen(v ssa.Value) (int64, bool) {
+	if al, ok := localArrayValue(v); ok {
+		return al.Type().Underlying().(*types.Pointer).Elem().Underlying().(*types.Array).Len(), true
+	}
+	if at, ok := v.Type().Underlying().(*types.Array); ok {
+		return at.Len(), true
+	}
 	if al, ok := localArrayOf(v); ok {
 		return al.Type().Underlying().(*types.Pointer).Elem().Underlying().(*types.Array).Len(), true
 	}
@@ -1380,7 +1498,20 @@ func (ev *evaluator) localElem(fr *evalFrame, ia *ssa.IndexAddr, field int, dept
 	if !ok || al.Parent() == nil {
 		return nil, false
 	}
-	iv, ok := ev.eval(fr, ia.Index, depth+1)
+	return ev.localElemOf(fr, al, ia.Index, field, depth)
+}
+
+// localArrayValue: v is the value of a local literal array (a load of the whole array, as a range over an array makes).
+func localArrayValue(v ssa.Value) (*ssa.Alloc, bool) {
+	ld, ok := v.(*ssa.UnOp)
+	if !ok || ld.Op != token.MUL {
+		return nil, false
+	}
+	return localArrayOf(ld.X)
+}
+
+func (ev *evaluator) localElemOf(fr *evalFrame, al *ssa.Alloc, index ssa.Value, field int, depth int) (interface{}, bool) {
+	iv, ok := ev.eval(fr, index, depth+1)
 	i, isI := iv.(int64)
 	if !ok || !isI {
 		return nil, false
@@ -1460,4 +1591,188 @@ func (ev *evaluator) localMapLookup(fr *evalFrame, mm *ssa.MakeMap, key ssa.Valu
 		}
 	}
 	return nil, false, true
+}
+
+
+// ---- local aggregates ----
+//
+// The walker keeps the value of every local variable that lives in memory (an ssa.Alloc of the
+// activation): scalars as they are, structs as absStruct, arrays as absArray. Stores through
+// &local.f, &local[i] and &local[i].f update the aggregate (copy on write: aggregates have value
+// semantics), loads read it where they stand.
+
+type absStruct struct {
+	t types.Type
+	f map[int]interface{}
+}
+
+type absArray struct {
+	t types.Type // the array type
+	e map[int64]interface{}
+}
+
+type pathStep struct {
+	field int       // >= 0: a struct field
+	index ssa.Value // non-nil: an array element
+}
+
+// localPath: addr is &local, &local.f, &local[i], &local[i].f ... of an Alloc of this activation.
+func localPath(addr ssa.Value) (*ssa.Alloc, []pathStep) {
+	var steps []pathStep
+	for depth := 0; depth < 6; depth++ {
+		switch x := addr.(type) {
+		case *ssa.Alloc:
+			// reverse: steps were collected from the leaf upwards
+			for i, j := 0, len(steps)-1; i < j; i, j = i+1, j-1 {
+				steps[i], steps[j] = steps[j], steps[i]
+			}
+			return x, steps
+		case *ssa.FieldAddr:
+			steps = append(steps, pathStep{field: x.Field})
+			addr = x.X
+		case *ssa.IndexAddr:
+			if _, isArr := x.X.Type().Underlying().(*types.Pointer); !isArr {
+				// an element of a slice: a local aggregate only when the slice is a whole local array ([]T{...})
+				sl, isSl := x.X.(*ssa.Slice)
+				if !isSl || sl.Low != nil || sl.High != nil {
+					return nil, nil
+				}
+				steps = append(steps, pathStep{field: -1, index: x.Index})
+				addr = sl.X
+				continue
+			}
+			steps = append(steps, pathStep{field: -1, index: x.Index})
+			addr = x.X
+		default:
+			return nil, nil
+		}
+	}
+	return nil, nil
+}
+
+func elemType(t types.Type, st pathStep) types.Type {
+	switch u := t.Underlying().(type) {
+	case *types.Struct:
+		if st.field >= 0 && st.field < u.NumFields() {
+			return u.Field(st.field).Type()
+		}
+	case *types.Array:
+		return u.Elem()
+	}
+	return nil
+}
+
+// zeroValue: the zero value of t as the evaluator represents it.
+func zeroValue(t types.Type) (interface{}, bool) {
+	if t == nil {
+		return nil, false
+	}
+	switch t.Underlying().(type) {
+	case *types.Struct:
+		return absStruct{t, nil}, true
+	case *types.Array:
+		return absArray{t, nil}, true
+	case *types.Pointer, *types.Slice, *types.Map, *types.Interface, *types.Signature:
+		return absPtr{"nil", true}, true
+	}
+	return zeroOf(t)
+}
+
+func (ev *evaluator) getPath(fr *evalFrame, cur interface{}, t types.Type, steps []pathStep) (interface{}, bool) {
+	for _, st := range steps {
+		if _, bad := cur.(unknownValue); bad || cur == nil {
+			return nil, false
+		}
+		et := elemType(t, st)
+		if et == nil {
+			return nil, false
+		}
+		switch c := cur.(type) {
+		case absStruct:
+			v, ok := c.f[st.field]
+			if !ok {
+				z, okz := zeroValue(et)
+				if !okz {
+					return nil, false
+				}
+				v = z
+			}
+			cur = v
+		case absArray:
+			iv, ok := ev.eval(fr, st.index, 0)
+			i, isI := iv.(int64)
+			if !ok || !isI {
+				return nil, false
+			}
+			if n := c.t.Underlying().(*types.Array).Len(); i < 0 || i >= n {
+				ev.panicked = true
+				return nil, false
+			}
+			v, ok := c.e[i]
+			if !ok {
+				z, okz := zeroValue(et)
+				if !okz {
+					return nil, false
+				}
+				v = z
+			}
+			cur = v
+		default:
+			return nil, false
+		}
+		t = et
+	}
+	return cur, true
+}
+
+func (ev *evaluator) setPath(fr *evalFrame, cur interface{}, t types.Type, steps []pathStep, v interface{}) (interface{}, bool) {
+	if len(steps) == 0 {
+		return v, true
+	}
+	st := steps[0]
+	et := elemType(t, st)
+	if et == nil {
+		return nil, false
+	}
+	if cur == nil {
+		z, ok := zeroValue(t)
+		if !ok {
+			return nil, false
+		}
+		cur = z
+	}
+	switch c := cur.(type) {
+	case absStruct:
+		nf := map[int]interface{}{}
+		for k, x := range c.f {
+			nf[k] = x
+		}
+		sub, ok := ev.setPath(fr, c.f[st.field], et, steps[1:], v)
+		if !ok {
+			return nil, false
+		}
+		nf[st.field] = sub
+		return absStruct{c.t, nf}, true
+	case absArray:
+		iv, ok := ev.eval(fr, st.index, 0)
+		i, isI := iv.(int64)
+		if !ok || !isI {
+			return nil, false
+		}
+		if n := c.t.Underlying().(*types.Array).Len(); i < 0 || i >= n {
+			ev.panicked = true
+			return nil, false
+		}
+		ne := map[int64]interface{}{}
+		for k, x := range c.e {
+			ne[k] = x
+		}
+		sub, ok := ev.setPath(fr, c.e[i], et, steps[1:], v)
+		if !ok {
+			return nil, false
+		}
+		ne[i] = sub
+		return absArray{c.t, ne}, true
+	}
+	return nil, false
 }
